@@ -187,11 +187,13 @@ def run_stub(rec, seed, m, n, mapping, ctypes, soft=False):
                 stub = with_stub(status)
                 op = synthetic(D, m, n, mapping, ct)
                 snapshot = lpsem.LP(op)
+                soft_part = None
                 if soft:
-                    op.optimize(make_soft_problem=True)
+                    res_soft = op.optimize(make_soft_problem=True)
+                    soft_part = (res_soft, stub.STATE.problems[-1], stub.STATE.variables[0], [zl(v) for v in stub.STATE.variables[0].solver_value])
                     stub.reset(status)
                 res = op.optimize()
-                return op, snapshot, res, stub.STATE.problems[-1], stub.STATE.variables[0]
+                return op, snapshot, res, stub.STATE.problems[-1], stub.STATE.variables[0], soft_part
             paths = lift.explore_build(build, level='B')
             rec.paths += len(paths)
             for pi, (path, D) in enumerate(paths):
@@ -199,9 +201,23 @@ def run_stub(rec, seed, m, n, mapping, ctypes, soft=False):
                 if path.exc is not None:
                     common.crash_candidate(rec, P + '/crash', path, D, info=dict(ob='crash', ctype=ct, status=status))
                     continue
-                op, L, res, prob, xvar = path.result
+                op, L, res, prob, xvar, soft_part = path.result
                 base = list(D.pre) + path.pc
                 info = dict(ctype=ct, status=status, mapping=mapping, soft=soft)
+                if soft_part is not None:
+                    # the result of the RELAXED call itself: the solver's vector unchanged (flagged variables may be fractional), value = -c.x
+                    res_s, prob_s, xvar_s, xs_before = soft_part
+                    ok_s = isinstance(res_s, eao.optimization.Results) and len(res_s.x) == len(xs_before)
+                    nm_s = P + '/soft/returns_results'
+                    rec.obligations.append(dict(name=nm_s, verdict='unsat' if ok_s else 'sat', secs=0, form='Q2'))
+                    rec.distinct.add(nm_s)
+                    if ok_s:
+                        for i in range(len(xs_before)):
+                            rec.prove(P + '/soft/result_x[%d]' % i, base, zl(res_s.x[i]) == xs_before[i], form='Q2', info=dict(info, ob='soft_result_x', i=i))
+                        rec.prove(P + '/soft/result_value', base + [zl(prob_s.value) == -z3.Sum([L.c[i] * xs_before[i] for i in range(L.n)])],
+                                  zl(res_s.value) == -z3.Sum([L.c[i] * zl(res_s.x[i]) for i in range(L.n)]), form='Q2', info=dict(info, ob='soft_result_value'))
+                    else:
+                        rec.candidates.append(dict(name=nm_s, env={}, info=dict(info, ob='soft_returns'), form='struct'))
                 if status == 'optimal':
                     x, obj, extra = check_recorded(rec, P, base, L, prob, xvar, info=info)
                     rec.prove(P + '/objective', base, obj == L.val(x), form='Q2', info=dict(info, ob='objective'))
@@ -220,7 +236,7 @@ def run_stub(rec, seed, m, n, mapping, ctypes, soft=False):
 def assembled(rec, P, base, L, prob, xvar, res, x, obj, info, c_nominal=None):
     """(iii) result assembly under the solver contract"""
     eao = lift.import_eao()
-    ok = isinstance(res, eao.optimization.Results) and res.x is xvar.value
+    ok = isinstance(res, eao.optimization.Results) and res.x is xvar.value and all(a_ is b_ for a_, b_ in zip(res.x, getattr(xvar, 'solver_value', res.x)))
     nm = P + '/returns_solver_x'
     rec.obligations.append(dict(name=nm, verdict='unsat' if ok else 'sat', secs=0, form='Q2'))
     rec.distinct.add(nm)
@@ -660,6 +676,21 @@ def stub_replay(kwargs, env, info):
         except Exception as e:  # noqa: BLE001
             out['real_solver_error'] = '%s: %s' % (type(e).__name__, e)
         return out
+    if info.get('ob') in ('soft_result_x', 'soft_result_value', 'soft_returns'):
+        # what is violated does not depend on the parameters: the REAL relaxed solve of an instance whose relaxation is fractional
+        # (max -5 x0 + x1,  x1 <= 10 x0,  x0 flagged boolean,  x1 <= 7  ->  relaxed optimum x = (0.7, 7), value 3.5)
+        import scipy.sparse as sp
+        from .. import cvxstub
+        if sys.modules.get('cvxpy') is cvxstub:
+            del sys.modules['cvxpy']
+        mp = pd.DataFrame({'asset': ['a', 'a'], 'node': ['n', 'n'], 'type': ['i', 'd'], 'var_name': ['on', 'disp'], 'time_step': [0, 0], 'bool': [True, False]}, index=[0, 1])
+        op = eao.optimization.OptimProblem(c=np.array([5., -1.]), l=np.array([0., 0.]), u=np.array([1., 7.]), A=sp.lil_matrix(np.array([[-10., 1.]])), b=np.array([0.]),
+                                           cType='U', mapping=mp)
+        r = op.optimize(make_soft_problem=True)
+        if isinstance(r, str):
+            return dict(soft_instance='solver: ' + r)
+        x = [float(v) for v in r.x]
+        return dict(soft_instance=dict(x=x, value=float(r.value), minus_cx=-(5. * x[0] - x[1])))
     stub = with_stub(status)
     if kind in ('stub', 'soft'):
         op = synthetic_concrete(D, kw['m'], kw['n'], kw['mapping'], info.get('ctype', kw['ctypes'][0]))
@@ -728,6 +759,12 @@ def judge(case, kwargs, cand, ans):
     ob = info.get('ob')
     if ob == 'crash':
         return False, 'no exception with real numpy/scipy'
+    if ob in ('soft_result_x', 'soft_result_value', 'soft_returns'):
+        si = ans['obs'].get('soft_instance')
+        if not isinstance(si, dict):
+            return None, 'relaxed instance not solved: %s' % si
+        bad = abs(si['value'] - si['minus_cx']) > 1e-5 or abs(si['x'][0] - 0.7) > 1e-4 or abs(si['x'][1] - 7.0) > 1e-4
+        return bad, 'optimize(make_soft_problem=True) on the relaxation with optimum x=(0.7, 7), value 3.5 returns x=%s, value %.6g (-c.x of the returned x: %.6g)' % (si['x'], si['value'], si['minus_cx'])
     if ob == 'split_status':
         return True, 'split optimisation returns a result although the solver reported %s for an interval' % info.get('status')
     if ob in ('split_value', 'split_x', 'split_duals'):
